@@ -1,6 +1,8 @@
 import BFL.Proofs.Bounds
 import BFL.Proofs.BoundsSigma
 import BFL.Proofs.BoundsCorr
+import BFL.Proofs.BoundsPart
+set_option linter.unusedSimpArgs false
 /-
 C14 — no operation reads or writes outside its matrices or mixes incompatible sizes.
 
@@ -325,5 +327,123 @@ example : ukfValid false ⟨2, 1, false, 0⟩ 2 ⟨2, 1, false, 0⟩ 2 ⟨⟨2, 
     ukfSupported ⟨2, 1, false, 0⟩ ⟨⟨2, 1, false, 2⟩, ⟨1, 1, false, 0⟩, 2, 0, 2, 2, 2, true, true, true⟩ := by decide
 example : sukfValid ⟨2, 1, false, 0⟩ 2 ⟨2, 1, false, 0⟩ 2 ⟨⟨2, 1, false, 2⟩, ⟨4, 0, false, 0⟩, 4, 0, 4, 4, 2, true, true, true⟩ 2 true := by decide
 example : kfValid ⟨3, 0, false, 0⟩ 2 ⟨3, 0, false, 0⟩ 2 2 3 2 := by decide
+
+/-! ## GaussianMixture / ParticleSet -/
+
+/-- indexed accessors (`mean(i)`, `mean(i, j)`, `covariance(i)`, `covariance(i, j, k)`, `weight(i)`) with indices in range,
+    on any layout incl. noise-augmented ones -/
+theorem safe_gm_accessors (K : Nat) (L : Layout) (which : String) (i j k : Nat) (h : gmaccValid K L which i j k) :
+    (gmaccCase K L which i j k).Safe := by
+  obtain ⟨hK, hi, hm, hc⟩ := h
+  unfold gmaccCase
+  simp only [safe_bind]
+  exact ⟨mkGM_safe K L (Or.inl hK), gmAccess_safe L K which i j k hi hm hc⟩
+
+theorem safe_ps_accessors (K : Nat) (L : Layout) (which : String) (i j : Nat) (h : psaccValid K L which i j) :
+    (psaccCase K L which i j).Safe := by
+  obtain ⟨_, hi, hm⟩ := h
+  exact psAccess_safe L K which i j hi hm
+
+/-- `augmentWithNoise`, once or twice, any argument shape (a non-square argument is refused): every block moved / written is
+    inside the resized storage, and the storage stays consistent with the bookkeeping. -/
+theorem safe_gm_augment (K : Nat) (L : Layout) (n1 n2 : Shape) (h : gmaugValid K) : (gmaugCase K L n1 n2).Safe := by
+  unfold gmaugValid at h
+  have hw0 := gmCtor_wf K L.dl L.dc L.quat
+  have h1 := gmAugment_ok (gmCtor K L.dl L.dc L.quat) n1 hw0 (by simpa [gmCtor] using h)
+  have hK1 : 1 ≤ (gmAugment (gmCtor K L.dl L.dc L.quat) n1).val.1.K := by rw [h1.2.2.1]; simpa [gmCtor] using h
+  have h2 := gmAugment_ok (gmAugment (gmCtor K L.dl L.dc L.quat) n1).val.1 n2 h1.2.1 hK1
+  unfold gmaugCase
+  simp only [safe_bind, val_bind, safe_pure, and_true, h1.1, true_and, safe_forRange]
+  split
+  · obtain ⟨_, w2, _, w4, _⟩ := h2.2.1
+    refine ⟨h2.1, ?_⟩
+    intro i hi
+    simp [w4, w2]
+    exact mul_block_le _ _ _ hi
+  · obtain ⟨_, w2, _, w4, _⟩ := h1.2.1
+    refine ⟨by simp, ?_⟩
+    intro i hi
+    simp [w4, w2]
+    exact mul_block_le _ _ _ hi
+
+/-- `resize` keeps the storage consistent with the bookkeeping (noise block and quaternion layouts included; fix ad6ea89) -/
+theorem gm_resize_consistent (g : GMStore) (K dl dc : Nat) (h : g.wf) : (gmResize g K dl dc).wf :=
+  gmResize_wf g K dl dc h
+
+theorem safe_gm_resize (K : Nat) (L : Layout) (K2 dl2 dc2 : Nat) (h : gmresizeValid K L) : (gmresizeCase K L K2 dl2 dc2).Safe := by
+  unfold gmresizeCase
+  simp only [safe_bind, safe_pure, and_true]
+  exact mkGM_safe K L (by unfold gmresizeValid at h; omega)
+
+/-- `ParticleSet::operator+=` of sets with the same layout: consistent, and the result is the set of `K1 + K2` particles -/
+theorem safe_particle_set_add (K1 : Nat) (L1 : Layout) (K2 : Nat) (L2 : Layout) (h : psaddValid L1 L2) :
+    (psaddCase K1 L1 K2 L2).Safe ∧ (psaddCase K1 L1 K2 L2).val = some (psCtor (K1 + K2) L1.dl L1.dc L1.quat).tokens := by
+  obtain ⟨h1, h2, h3⟩ := h
+  unfold psaddCase
+  rw [← h1, ← h2, ← h3]
+  have := psAdd_safe K1 K2 L1.dl L1.dc L1.quat
+  have hv := psAdd_wf K1 K2 L1.dl L1.dc L1.quat
+  simp [this, hv]
+
+/-! ## Resampling -/
+
+theorem safe_resample (N : Nat) (I : Layout) (rN : Nat) (R : Layout) (plen : Nat) (h : rsValid N I rN R plen) :
+    (rsCase N I rN R plen).Safe := by
+  obtain ⟨hN, _, hR, hrN, hp⟩ := h
+  rw [hR, hrN, hp]
+  unfold rsCase
+  simp only [safe_bind, safe_pure, and_true]
+  exact resample_safe I N hN
+
+/-- `ResamplingWithPrior::resample`: any particle count ≥ 1, any prior ratio in [0, 1), Euler and quaternion layouts,
+    any initialisation grid. -/
+theorem safe_resample_with_prior (N rnum rden : Nat) (I : Layout) (nx ny plen : Nat) (h : rwpValid N rnum rden I plen) :
+    (rwpCase N rnum rden I nx ny plen).Safe := by
+  obtain ⟨hN, _, _, hr, hp⟩ := h
+  rw [hp]
+  unfold rwpCase
+  simp only [safe_bind, safe_pure, and_true]
+  exact resampleWithPrior_safe I N rnum rden nx ny hN hr
+
+/-! ## EstimatesExtraction -/
+
+/-- All twelve extraction methods, both overloads, any number of successive extractions (longer than the window),
+    any window size: products, history columns and weight vectors agree in size. -/
+theorem safe_estimates_extraction (ls cs : Nat) (m : EMethod) (full : Bool) (a : EEArgs) (reps window : Nat)
+    (h : eeValid ls cs full a) : (eeCase ls cs m full a reps window).Safe := by
+  have hu0 : (Hist.new (ls + cs)).uniform := by simp [Hist.uniform, Hist.new]
+  have hb0 : (Hist.new (ls + cs)).bounded := by simp [Hist.bounded, Hist.new]
+  unfold eeCase
+  simp only [safe_bind, val_bind, safe_pure, and_true]
+  split
+  · have hs := histSetSize_ok (Hist.new (ls + cs)) window hu0
+    have hb := histSetSize_bounded (Hist.new (ls + cs)) window hb0
+    refine ⟨hs.1, eeRun_safe reps _ m full a ⟨hs.2.1, hb, ?_⟩ h⟩
+    show (histSetSize (Hist.new (ls + cs)) window).val.stateSize = ls + cs
+    rw [hs.2.2]; rfl
+  · refine ⟨by simp, eeRun_safe reps _ m full a ⟨hu0, hb0, ?_⟩ h⟩
+    simp [EEState.new, Hist.new]
+
+/-! ## GPFCorrection -/
+
+theorem safe_gpf_sample (msize csize : Nat) (h : gpfSampleValid msize csize) : (gpfSampleCase msize csize).Safe := by
+  unfold gpfSampleValid at h
+  subst h
+  simp [gpfSampleCase, (gpfSample_safe msize).1]
+
+/-- after fix 1b09d3a a moved-to GPFCorrection draws from its own generator, whatever happens to the source -/
+theorem safe_gpf_move (mode n : Nat) : (gpfMoveCase mode n).Safe := by
+  unfold gpfMoveCase
+  have := (gpfSample_safe n).1
+  split
+  · simp [moveThenUse, callClosure, this]
+    split <;> simp
+  · simp [this]
+
+/-- the defect fixed by 1b09d3a, in the lifetime model: the moved `std::function` still dereferences the destroyed source -/
+theorem unsafe_gpf_move_before_fix_counterexample : ¬ (moveThenUse .gpfCorrectionOld true).Safe := by decide
+
+example : rwpValid 8 1 2 ⟨0, 1, true, 0⟩ 8 := by decide
+example : eeValid 2 1 true ⟨⟨3, 4⟩, 4, 4, 4, ⟨4, 4⟩⟩ := by decide
 
 end BFL.Bounds
